@@ -1,0 +1,47 @@
+//go:build verif
+
+package funcGen
+
+import "sort"
+
+// VerifOperator describes one binary operator of the generator (verification hook, read-only).
+type VerifOperator struct {
+	Name          string
+	IsPure        bool
+	IsCommutative bool
+}
+
+// VerifStatic describes one static function of the generator (verification hook, read-only).
+type VerifStatic struct {
+	Name   string
+	Args   int
+	IsPure bool
+}
+
+// VerifOperators returns the binary operators in priority order (lowest first).
+func (g *FunctionGenerator[V]) VerifOperators() []VerifOperator {
+	var l []VerifOperator
+	for _, o := range g.operators {
+		l = append(l, VerifOperator{Name: o.Operator, IsPure: o.IsPure, IsCommutative: o.IsCommutative})
+	}
+	return l
+}
+
+// VerifUnaryOperators returns the names of the unary operators.
+func (g *FunctionGenerator[V]) VerifUnaryOperators() []string {
+	var l []string
+	for _, u := range g.unary {
+		l = append(l, u.Operator)
+	}
+	return l
+}
+
+// VerifStaticFunctions returns the static functions sorted by name.
+func (g *FunctionGenerator[V]) VerifStaticFunctions() []VerifStatic {
+	var l []VerifStatic
+	for n, f := range g.staticFunctions {
+		l = append(l, VerifStatic{Name: n, Args: f.Args, IsPure: f.IsPure})
+	}
+	sort.Slice(l, func(i, j int) bool { return l[i].Name < l[j].Name })
+	return l
+}
